@@ -249,7 +249,7 @@ func genYieldOff(r *rng) []string {
 	return off
 }
 
-var allYieldSites = []string{"conn", "susptimeout2", "handoff", "trigger", "pptrigger", "probe", "indirect", "gossip", "pushpull", "acktimeout", "alive", "suspect", "susptimeout", "dead", "leave1", "leave2", "update", "shutdown1", "shutdown2", "decryptkey", "write", "dial", "evcb"}
+var allYieldSites = []string{"conn", "susptimeout2", "handoff", "trigger", "pptrigger", "probe", "indirect", "gossip", "pushpull", "acktimeout", "alive", "suspect", "susptimeout", "dead", "leave1", "leave2", "update", "shutdown1", "shutdown2", "decryptkey", "write", "dial", "evcb", "alivedel"}
 
 // ---------------------------------------------------------------- shrinking
 
